@@ -131,6 +131,36 @@ pub fn run_strip_bytes_chunked(input: &[u8], chunks: &[usize]) -> Outcome {
     }
 }
 
+/// the non-contiguous protocol of `StrippedBytes`: drain the iterator, `extend` with the next slice
+pub fn run_stripped_bytes_extend(input: &[u8], chunks: &[usize]) -> Outcome {
+    match catch_unwind(AssertUnwindSafe(|| {
+        let mut all = Vec::new();
+        let mut pos = 0;
+        let mut it = strip_bytes(&input[..0]);
+        let mut protocol_ok = it.is_empty();
+        for c in chunks {
+            let chunk = &input[pos..pos + c];
+            protocol_ok &= it.is_empty();
+            it.extend(chunk);
+            protocol_ok &= it.is_empty() == chunk.is_empty();
+            let mut p: Pieces = Vec::new();
+            for piece in it.by_ref() {
+                p.push(off(chunk, piece));
+            }
+            protocol_ok &= it.is_empty();
+            all.push((pos, p, *c));
+            pos += c;
+        }
+        (all, protocol_ok)
+    })) {
+        Ok((all, ok)) => {
+            let (k, g) = flags_from(input.len(), &all);
+            Outcome::Kept(k, if ok { g } else { Some("StrippedBytes::is_empty does not follow the extend protocol".into()) })
+        }
+        Err(_) => Outcome::Panic,
+    }
+}
+
 pub fn run_strip_str_oneshot(input: &str) -> Outcome {
     let b = input.as_bytes();
     match catch_unwind(AssertUnwindSafe(|| {
@@ -355,6 +385,7 @@ pub fn check_case(t: &mut Tally, input: &[u8], req: &[u8], all_up_to: usize) {
     for c in chunkings(input.len(), all_up_to) {
         judge(t, input, req, "StripBytes::strip_next", &c, run_strip_bytes_chunked(input, &c), one.as_ref());
         judge(t, input, req, "StripStream::write_all", &c, run_stream(input, &c, false), one.as_ref());
+        judge(t, input, req, "StrippedBytes::extend", &c, run_stripped_bytes_extend(input, &c), one.as_ref());
     }
     judge(t, input, req, "AutoStream::never.write_all", &[input.len()], run_stream(input, &[input.len()], true), one.as_ref());
     if let Ok(s) = std::str::from_utf8(input) {
